@@ -1,0 +1,202 @@
+//go:build verif
+
+package serf
+
+import (
+	"io"
+	"log"
+	"sort"
+	"time"
+)
+
+// Accessors for the query machinery (reply routing, relay selection, conflict
+// vote, key aggregation / truncation), used only by the verification harness
+// (/verif). Compiled only with -tags verif. Add-only: nothing here changes the
+// behaviour of the package.
+
+// VerifKRandomMembers runs the unexported relay member selection.
+func VerifKRandomMembers(k int, members []Member, filter func(Member) bool) []Member {
+	return kRandomMembers(k, members, filter)
+}
+
+// VerifOpenQuery describes one entry of s.queryResponse.
+type VerifOpenQuery struct {
+	LTime    LamportTime
+	ID       uint32
+	Deadline time.Time
+	Closed   bool
+	AckCap   int // -1: no ack channel
+	AckLen   int
+	RespCap  int
+	RespLen  int
+	Resp     *QueryResponse
+}
+
+// VerifOpenQueries lists the registered (not yet timed out) queries, sorted by time.
+func VerifOpenQueries(s *Serf) []VerifOpenQuery {
+	s.queryLock.RLock()
+	defer s.queryLock.RUnlock()
+	var out []VerifOpenQuery
+	for lt, r := range s.queryResponse {
+		r.closeLock.Lock()
+		o := VerifOpenQuery{LTime: lt, ID: r.id, Deadline: r.deadline, Closed: r.closed, AckCap: -1,
+			RespCap: cap(r.respCh), RespLen: len(r.respCh), Resp: r}
+		if r.ackCh != nil {
+			o.AckCap, o.AckLen = cap(r.ackCh), len(r.ackCh)
+		}
+		r.closeLock.Unlock()
+		out = append(out, o)
+	}
+	sort.Slice(out, func(i, j int) bool { return out[i].LTime < out[j].LTime })
+	return out
+}
+
+// VerifQueryIdent returns the Lamport time and id of a QueryResponse.
+func VerifQueryIdent(r *QueryResponse) (LamportTime, uint32) { return r.lTime, r.id }
+
+// VerifQueryClosed reports the closed flag of a QueryResponse.
+func VerifQueryClosed(r *QueryResponse) bool {
+	r.closeLock.Lock()
+	defer r.closeLock.Unlock()
+	return r.closed
+}
+
+// VerifQueryBacklog returns the number of buffered, not yet consumed responses.
+func VerifQueryBacklog(r *QueryResponse) int { return len(r.respCh) }
+
+// VerifCloseQuery runs exactly the body of the timer closure that
+// registerQueryResponse schedules, for the given QueryResponse, now.
+func VerifCloseQuery(s *Serf, resp *QueryResponse) {
+	s.queryLock.Lock()
+	delete(s.queryResponse, resp.lTime)
+	resp.Close()
+	s.queryLock.Unlock()
+}
+
+// VerifRegisterQuery builds a QueryResponse exactly as Query does (newQueryResponse with
+// channel capacity n) and registers it with the real registerQueryResponse.
+func VerifRegisterQuery(s *Serf, n int, lt LamportTime, id uint32, ack bool, timeout time.Duration) *QueryResponse {
+	q := messageQuery{LTime: lt, ID: id, Timeout: timeout}
+	if ack {
+		q.Flags |= queryFlagAck
+	}
+	resp := newQueryResponse(n, &q)
+	s.registerQueryResponse(timeout, resp)
+	return resp
+}
+
+// VerifEncodeQueryResponse encodes a messageQueryResponse as it travels on the wire.
+func VerifEncodeQueryResponse(lt LamportTime, id uint32, from string, ack bool, payload []byte) []byte {
+	m := messageQueryResponse{LTime: lt, ID: id, From: from, Payload: payload}
+	if ack {
+		m.Flags |= queryFlagAck
+	}
+	raw, err := encodeMessage(messageQueryResponseType, &m, false)
+	if err != nil {
+		panic(err)
+	}
+	return raw
+}
+
+// VerifEncodeQuery encodes a messageQuery as it travels on the wire.
+func VerifEncodeQuery(lt LamportTime, id uint32, addr []byte, port uint16, source string, ack bool,
+	relayFactor uint8, timeout time.Duration, name string, payload []byte) []byte {
+	m := messageQuery{LTime: lt, ID: id, Addr: addr, Port: port, SourceNode: source, RelayFactor: relayFactor,
+		Timeout: timeout, Name: name, Payload: payload}
+	if ack {
+		m.Flags |= queryFlagAck
+	}
+	raw, err := encodeMessage(messageQueryType, &m, false)
+	if err != nil {
+		panic(err)
+	}
+	return raw
+}
+
+// VerifEncodeLeave encodes a leave intent.
+func VerifEncodeLeave(lt LamportTime, node string) []byte {
+	raw, err := encodeMessage(messageLeaveType, &messageLeave{LTime: lt, Node: node}, false)
+	if err != nil {
+		panic(err)
+	}
+	return raw
+}
+
+// VerifEncodeConflictResponse encodes what handleConflict answers (m may be nil).
+func VerifEncodeConflictResponse(m *Member) []byte {
+	raw, err := encodeMessage(messageConflictResponseType, m, false)
+	if err != nil {
+		panic(err)
+	}
+	return raw
+}
+
+// VerifEncodeKeyResponse encodes a nodeKeyResponse as a key handler sends it.
+func VerifEncodeKeyResponse(result bool, msg string, keys []string, primary string) []byte {
+	raw, err := encodeMessage(messageKeyResponseType,
+		nodeKeyResponse{Result: result, Message: msg, Keys: keys, PrimaryKey: primary}, false)
+	if err != nil {
+		panic(err)
+	}
+	return raw
+}
+
+// VerifStreamKeyResp builds the KeyResponse as handleKeyRequest does, feeds the
+// replies through the real streamKeyResp (channel closed after the last one,
+// i.e. the query timed out) and returns it.
+func VerifStreamKeyResp(numNodes int, replies []NodeResponse) *KeyResponse {
+	resp := &KeyResponse{
+		Messages:    make(map[string]string),
+		Keys:        make(map[string]int),
+		PrimaryKeys: make(map[string]int),
+	}
+	resp.NumNodes = numNodes
+	ch := make(chan NodeResponse, len(replies))
+	for _, r := range replies {
+		ch <- r
+	}
+	close(ch)
+	k := &KeyManager{serf: &Serf{logger: log.New(io.Discard, "", 0)}}
+	k.streamKeyResp(resp, ch)
+	return resp
+}
+
+// VerifKeyListResponse runs the real truncation loop for a node named nodeName
+// answering query (lt, id) with response size limit `limit`. It returns the
+// length of the encoded reply, the keys and the message the reply carries.
+func VerifKeyListResponse(limit int, nodeName string, lt LamportTime, id uint32,
+	keys []string, primary string, msg string) (rawLen int, shown []string, outMsg string, err error) {
+	sv := &Serf{config: &Config{NodeName: nodeName, QueryResponseSizeLimit: limit}}
+	sq := &serfQueries{logger: log.New(io.Discard, "", 0), serf: sv}
+	q := &Query{LTime: lt, id: id, serf: sv}
+	resp := &nodeKeyResponse{Result: true, Message: msg, Keys: keys, PrimaryKey: primary}
+	raw, qresp, e := sq.keyListResponseWithCorrectSize(q, resp)
+	if e != nil {
+		return 0, nil, "", e
+	}
+	// what the reply carries is decoded back from the encoded reply itself
+	var back nodeKeyResponse
+	if len(qresp.Payload) < 1 {
+		return len(raw), nil, "", nil
+	}
+	if e := decodeMessage(qresp.Payload[1:], &back); e != nil {
+		return len(raw), nil, "", e
+	}
+	return len(raw), back.Keys, back.Message, nil
+}
+
+// VerifKeyListSize is the encoded size of a key-list reply showing `keys` with
+// message `msg`, computed with the real encoders (independent of the loop).
+func VerifKeyListSize(nodeName string, lt LamportTime, id uint32, keys []string, primary string, msg string) int {
+	buf, err := encodeMessage(messageKeyResponseType,
+		&nodeKeyResponse{Result: true, Message: msg, Keys: keys, PrimaryKey: primary}, false)
+	if err != nil {
+		panic(err)
+	}
+	m := messageQueryResponse{LTime: lt, ID: id, From: nodeName, Payload: buf}
+	raw, err := encodeMessage(messageQueryResponseType, m, false)
+	if err != nil {
+		panic(err)
+	}
+	return len(raw)
+}
